@@ -131,7 +131,11 @@ def run_shard(ctx):
                     text = '1 %s - %s %s' % (u['names'][0], render_literal(canon_of_float(abs(x) + 2), sep), u['names'][0])
             else:
                 n = rng.choice([0, 1, 255, 4096, 65535, 2**31 - 1, rng.randint(0, 2**31 - 1), 2**31, 2**32 - 1, 2**32, 2**40 + 5, 2**53, rng.randint(2**31, 2**53)])
-                if lang == 'en':
+                if rng.random() < 0.1:
+                    # a negative result kept in a base (the left operand decides the base)
+                    m_ = rng.randint(1, 4096)
+                    text = rng.choice(['0x%X - 0x%X', '0o%o - 0o%o', '0x%X - %d']) % (m_, m_ + rng.randint(1, 100000))
+                elif lang == 'en':
                     text = '%d to %s' % (n, rng.choice(['hex', 'octal', 'binary']))
                 else:
                     text = rng.choice(['0x%X' % n, '0o%o' % n, '0b' + bin(n)[2:]])
@@ -187,8 +191,11 @@ def run_shard(ctx):
                 detail = 'unit:%s' % first['v']['group']
             if kind == 'duration' and re.search(r'(^| )12 (months|ay)( |$)', o1):
                 detail = 'duration:twelve-months-read-back-as-one-year'
+            negative_based = kind == 'base' and mon.fval(first) < 0 and re.fullmatch(r'0x[8-9A-F][0-9A-F]{15}|0o1[0-7]{21}|0b1[01]{63}', o1) is not None
+            if negative_based:
+                detail = 'base:negative-result-printed-as-twos-complement'
             sig = 'roundtrip:%s' % detail
-            if kind in ('time', 'date', 'number', 'percent', 'base', 'unit') or detail == 'duration':
+            if (kind in ('time', 'date', 'number', 'percent', 'base', 'unit') and not negative_based) or detail == 'duration':
                 sig += ':' + lang
             res.violation(sig, '%s (from %r; separators %r, digits %d, zone %s, %s)' % (problem, text, sep, d, dz, lang),
                           {'config': cfg, 'lang': lang, 'text': o1, 'source': text, 'epoch': epoch,
